@@ -298,6 +298,12 @@ class Types:
             if t is not None:
                 env[arg.arg] = t
         conflicts = set()
+        param_names = {a_.arg for a_ in allargs}
+        if a.vararg:
+            param_names.add(a.vararg.arg)
+        if a.kwarg:
+            param_names.add(a.kwarg.arg)
+        untyped_params = {p_ for p_ in param_names if p_ not in env}
 
         def bind(name, t):
             if t is None:
@@ -314,22 +320,60 @@ class Types:
             else:
                 env[name] = t
 
-        for _ in range(3):
+        def each_binding(cb):
             for n in own_nodes(fi.node):
                 if isinstance(n, ast.Assign):
                     vt = self.expr_type(n.value, env, fi)
                     for t in n.targets:
-                        self._bind_target(t, vt, bind)
+                        self._bind_target2(t, vt, cb)
                 elif isinstance(n, ast.AnnAssign) and n.value is not None and isinstance(n.target, ast.Name):
-                    bind(n.target.id, self.expr_type(n.value, env, fi))
+                    cb(n.target.id, self.expr_type(n.value, env, fi))
+                elif isinstance(n, ast.AugAssign) and isinstance(n.target, ast.Name):
+                    cb(n.target.id, env.get(n.target.id) if (env.get(n.target.id) or (None,))[0] == "B" else None)
                 elif isinstance(n, (ast.For, ast.comprehension)):
                     et = self.elem_type(n.iter, env, fi)
-                    self._bind_target(n.target, et, bind)
+                    self._bind_target2(n.target, et, cb)
                 elif isinstance(n, ast.With):
                     for it in n.items:
                         if it.optional_vars is not None:
-                            self._bind_target(it.optional_vars, self.expr_type(it.context_expr, env, fi), bind)
+                            self._bind_target2(it.optional_vars, self.expr_type(it.context_expr, env, fi), cb)
+                elif isinstance(n, ast.ExceptHandler) and n.name:
+                    cb(n.name, None)
+
+        for _ in range(3):
+            each_binding(bind)
+        # a fact is definite or absent: one binding of unknown type makes the name unknown (parameters with a typed annotation
+        # or convention keep their type only if never rebound to something unknown)
+        for _ in range(3):
+            unknown = set()
+
+            def probe(name, t):
+                if t is None:
+                    unknown.add(name)
+
+            each_binding(probe)
+            unknown |= untyped_params  # the value passed in is a binding of unknown type
+            drop = [n_ for n_ in unknown if n_ in env]
+            if not drop:
+                break
+            for n_ in drop:
+                env.pop(n_, None)
+                conflicts.add(n_)
         return env
+
+    def _bind_target2(self, target, t, cb):
+        """like _bind_target but also reports names whose component type is unknown"""
+        if isinstance(target, ast.Name):
+            cb(target.id, t)
+        elif isinstance(target, (ast.Tuple, ast.List)):
+            if t is not None and t[0] == "T" and len(t[1]) == len(target.elts):
+                for e, et in zip(target.elts, t[1]):
+                    self._bind_target2(e, et, cb)
+            else:
+                for e in target.elts:
+                    self._bind_target2(e, None, cb)
+        elif isinstance(target, ast.Starred):
+            self._bind_target2(target.value, None, cb)
 
     def _bind_target(self, target, t, bind):
         if isinstance(target, ast.Name):
@@ -347,7 +391,7 @@ class Types:
         ci = self.repo.resolve_class_name(fi.module, txt)
         if ci is not None:
             return I(ci.fq)
-        return {"str": B("str"), "dict": B("dict"), "list": B("list"), "float": B("float"), "int": B("int"), "bool": B("bool"), "np.array": B("ndarray"), "np.ndarray": B("ndarray")}.get(txt)
+        return None  # annotations naming builtin kinds are documentation in this repo (e.g. `source: str` also accepts a Spreadsheet): not a definite fact
 
     # ------------------------------------------------------------------ expressions
     def elem_type(self, it, env, fi):
@@ -372,6 +416,9 @@ class Types:
         if t is not None and t[0] == "C":
             return t[1]
         return None
+
+    def _unused(self):
+        pass
 
     def expr_type(self, e, env, fi):
         if isinstance(e, ast.Name):
@@ -482,6 +529,11 @@ class Types:
             if f is not None:
                 return self.return_type(f)
             return None
+        if isinstance(e.func, ast.Attribute) and e.func.attr == "to_dict":
+            orient = next((k.value for k in e.keywords if k.arg == "orient"), None)
+            if isinstance(orient, ast.Constant) and orient.value == "records":
+                return C(B("dict"))  # pandas: a list of one dict per row
+            return B("dict")
         if isinstance(e.func, ast.Attribute):
             # module-qualified class, e.g. at.ProgramSet(...)
             bt = self.expr_type(e.func.value, env, fi)
